@@ -263,9 +263,17 @@ def configs(quick):
                                                                      or (pool == "full" and lab in ("C.trunc@39", "garbage.interrupt"))):
                             p, r = 1, 1
                     else:
-                        p, r = (1, 2) if server == "multiplex" or pool == "full" else (1, 1)
-                        if ".trunc@" in lab and int(lab.split("@")[1]) not in TRUNC:
-                            p, r = 0, 0      # the additional prefixes of the thorough tier: default schedule
+                        # thorough: every stream under the default schedule; the semantically hostile invokes, the boundary truncations and
+                        # the raw garbage under every one-preemption schedule; the representative subset with two reorderings on top
+                        p, r = 0, 0
+                        natural_phase = (phase == "first") == lab.startswith(("C.", "garbage"))
+                        medium = natural_phase and ending != "read-then-close" and (
+                            (base == "I" and not any(x in lab for x in (".tag", ".ver", ".type", ".ser", ".flags", ".seq", ".dlen", ".alen", ".corr", ".rsv", ".magic", ".trunc", ".twice", ".payload", ".compressed")))
+                            or (".trunc@" in lab and int(lab.split("@")[1]) in TRUNC) or lab.startswith("garbage") or ".dlen" in lab or ".alen" in lab)
+                        if medium and (server == "multiplex" or pool == "full" or not timeout):
+                            p, r = 1, 1
+                        if lab in ("I.raises-unserialisable", "I.trunc@-1", "C.trunc@39", "garbage.interrupt") and natural_phase and ending != "read-then-close" and (server == "multiplex" or pool == "full"):
+                            p, r = 1, 2
                     out.append({"server": server, "timeout": timeout, "pool": pool, "stream": lab, "phase": phase, "ending": ending, "p": p, "r": r, "horizon": 3000})
     return out
 
